@@ -146,7 +146,7 @@ void harness(void)
 		c->base.destroy = dir_reader_destroy;
 		c->base.copy = dir_reader_copy;
 		c->base.refcount = 1;
-		VERIF_ASSERT(!VERIF_SAME_OBJECT(c, o), C19_OB("fresh"));
+		VERIF_ASSERT(C19_DISTINCT(c, o), C19_OB("fresh"));
 		VERIF_ASSERT(super_eq(&c->super, &super) && c->flags == o->flags,
 			     C19_OB("fresh"));
 		VERIF_ASSERT(g_obj_n == nobj0 + 2 && c->meta_dir != NULL &&
@@ -178,7 +178,7 @@ void harness(void)
 					     VERIF_RW_OK(cn[i], sizeof(node_wrap_t)),
 					     C19_OB("fresh"));
 				for (j = 0; j < NN; ++j)
-					VERIF_ASSERT(!VERIF_SAME_OBJECT(cn[i], on[j]),
+					VERIF_ASSERT(C19_DISTINCT(cn[i], on[j]),
 						     C19_OB("fresh"));
 				VERIF_ASSERT((cn[i]->left != NULL) == (i == 0 && NN > 1) &&
 					     cn[i]->right == NULL &&
